@@ -384,13 +384,16 @@ func c20Bubble(tp *core.Tape, e *core.Env) (hist []string) {
 		if t.readded {
 			cls = "readded"
 		}
-		if t.inDisc && t.asked && !t.success {
-			e.Violate("never-explored", "class="+cls, "target %s stayed discovered and was asked for at %s, but after %d failed probes and a quiet phase of 150 s it still has no successful probe (probes: %d)", t.addr, t.askedAt.Sub(start), t.nFailed, len(t.probes))
-			continue
-		}
-		if t.inDisc && t.asked && t.success {
+		if t.inDisc && t.asked {
+			// what the coordinator would be told decides; which incarnation of a re-discovered
+			// target a probe belonged to cannot be told apart at the transport
 			r := get(t)
-			if r == nil || r.Health != pscrape.HealthGood || r.Series != int64(t.kept) || r.TotalSeries != int64(t.total) {
+			good := r != nil && r.Health == pscrape.HealthGood && r.Series == int64(t.kept) && r.TotalSeries == int64(t.total)
+			switch {
+			case good:
+			case !t.success && (r == nil || r.Health != pscrape.HealthGood):
+				e.Violate("never-explored", "class="+cls, "target %s stayed discovered and was asked for at %s, but after %d failed probes and a quiet phase of 150 s it still has no successful probe (probes: %d)", t.addr, t.askedAt.Sub(start), t.nFailed, len(t.probes))
+			default:
 				e.Violate("estimate", "class="+cls, "target %s: successful probe had %d samples (%d kept) but Get returns %+v", t.addr, t.total, t.kept, r)
 			}
 		}
